@@ -42,6 +42,8 @@ func checkC07(c *Ctx) {
 	c.Expect("C07-R6", 49)
 	c.Rule("C07-R11", "variables, constants and unary operators as terminfo(5) defines them: %P/%g address the static variables with ch-'A' under 'A'..'Z' and the dynamic ones with ch-'a' under 'a'..'z'; %'c' pushes the quoted character; %{n} accumulates decimal digits from zero; %l pushes the popped string's length; %! pushes x==0; %~ pushes x^-1")
 	c.Expect("C07-R11", 9)
+	c.Rule("C07-R12", "the cursor string is what TParm computes in this call: TGoto keeps no state across calls (= C15-R1)")
+	c.Expect("C07-R12", 2)
 	if err := tpSelfTest(); err != nil {
 		c.Undecided("C07-R6", "self-test", "-", err.Error())
 		return
@@ -130,6 +132,7 @@ func checkC07(c *Ctx) {
 	c07CharOutput(c, p, fn, opCmp)
 	c07BinOps(c, p, fn, dispatch)
 	c07Handlers(c, p, fn, dispatch)
+	c.asRule("C15-R1", "C07-R12", func() { c15Goto(c, p) })
 	c07Stack(c, p)
 	c07Loops(c, p, fn, chOf)
 	c07Index(c, p, fn)
